@@ -63,6 +63,21 @@ class StrSym:
         self.subject = subject
         self.args = args
         self.result = result
+        # locals used as an INDEX into the argument list (`args_[i]`): an index that starts at 0 and is stepped by one plays the
+        # argument iterator's part
+        self.arg_indices = set()
+        for _, _, e in fn.roots():
+            for n in walk(e["expr"]):
+                base = idx = None
+                if n.get("k") == "subscript":
+                    base, idx = n.get("base"), n.get("idx")
+                elif n.get("k") == "call" and n.get("op") == "[]" and n.get("this") is not None and n.get("args"):
+                    base, idx = n["this"], n["args"][0]
+                bu, iu = ir.unwrap(base) if base is not None else None, ir.unwrap(idx) if idx is not None else None
+                while isinstance(iu, dict) and iu.get("k") == "cast":
+                    iu = ir.unwrap(iu["e"])
+                if isinstance(bu, dict) and bu.get("k") == "member" and short(bu.get("field") or "") == args and isinstance(iu, dict) and iu.get("k") == "ref" and iu.get("decl", "").startswith("local:"):
+                    self.arg_indices.add(iu["decl"][6:])
 
     # ------------------------------------------------------------------ expressions
     def ev(self, n, env):
@@ -156,6 +171,8 @@ class StrSym:
                 b, i = self.ev(th, env), self.ev(args[0], env)
                 if b and b[0] == "match" and i == ("off", {}):
                     return ("match", b[1])
+                if b and b[0] == "args" and i and i[0] == "ait":
+                    return ("arg", i[1])
                 return None
             if (n.get("name") or "") in ("std::move", "std::forward", "std::as_const") and args:
                 return self.ev(args[0], env)
@@ -245,6 +262,8 @@ class StrSym:
                     # direct-initialisation with a dependent type: T name(a, b, c) / T name{}
                     init = {"k": "construct", "name": v.get("type"), "args": list(iu.get("elems", iu.get("kids", iu.get("args", []))))}
                 env[v["name"]] = self.ev(init, env) if init is not None else None
+                if v["name"] in self.arg_indices and env[v["name"]] == ("off", {}):
+                    env[v["name"]] = ("ait", 0, "fresh")  # size_type i = 0; ... args_[i]
                 self._effects(init, env, out)
             return
         self._effects(x, env, out)
